@@ -123,67 +123,47 @@ def rule_tables(facts, rep):
     # xterm_to_rgb: palette first
     b = facts.body("anstyle_lossy", L + "xterm_to_rgb")
     rep.fn(b["path"])
-    # the result is the palette's entry when rgb_from_index(palette, index) is Some, else XTERM_COLORS[index] — `match`, `if let`
-    # or `let .. else`, with the index in a temporary or not
-    O = hir.Origins(b["hir"])
-    R = hir.Resolver(b["hir"])
-    tail = hir.simp(hir.stmts_of(b["hir"])[-1])
-    vals = (O._branch_values(tail) or []) if tail.get("k") in ("if", "match", "block") else [tail]
+    # by abstract evaluation, one case per outcome of the palette lookup: the palette's entry when rgb_from_index(palette, index)
+    # is Some, else XTERM_COLORS[index] — `match`, `if let` + early return, `let .. else`, temporaries: all the same
     kinds = []
-
-    def is_index_of_color(e):
-        e = hir.peel(R.res(hir.peel(e)))
-        return (hir.is_call(e, "anstyle::color::Ansi256Color::index") and hir.is_local(e["args"][0], "color")) or \
-            (e.get("k") == "field" and e["name"] == "0" and hir.is_local(e["e"], "color"))
-    for v in vals:
-        src, proj = O.of(v)
-        if hir.is_call(src, L + "palette::Palette::rgb_from_index") and proj == ("Some",) and hir.is_local(src["args"][0], "palette") and is_index_of_color(src["args"][1]):
-            kinds.append("palette")
-        elif hir.simp(v).get("k") == "index" and hir.is_def(hir.simp(v)["e"], "anstyle_lossy::XTERM_COLORS") and is_index_of_color(hir.simp(v)["i"]):
-            kinds.append("fixed")
-        else:
-            kinds.append("?")
+    for found in (True, False):
+        asked = []
+        ev = abseval.Evaluator(facts, "anstyle_lossy", {
+            L + "palette::Palette::rgb_from_index": lambda a, found=found: (asked.append(list(a)), ("some", ("sym", "entry")) if found else ("none",))[1],
+            "index:anstyle_lossy::XTERM_COLORS": lambda a: ("fixed", a[0])}, inline_crates=("anstyle",))
+        try:
+            r = ev.call_fn("anstyle_lossy", b["path"], [("ctor", "anstyle::color::Ansi256Color", ("sym", "i")), ("sym", "palette")])
+        except Unrecognised as ex:
+            r = ("not-evaluable", str(ex)[:80])
+        good = asked == [[("sym", "palette"), ("sym", "i")]] and r == (("sym", "entry") if found else ("fixed", ("sym", "i")))
+        kinds.append(("palette" if found else "fixed") if good else f"? {r} {asked}")
     rep.check(sorted(kinds) == ["fixed", "palette"], "tables", b["path"], "palette-first-then-fixed-table", f"{kinds}", loc(b))
     # Palette: rgb_from_index = Some(self.0[i]) iff i < len ; get = self.0[from_ansi(color).index()]
     b = facts.body("anstyle_lossy", L + "palette::Palette::rgb_from_index")
     rep.fn(b["path"])
-    paths = hir.enumerate_paths(b["hir"])
-    ipid = b["params"][1].get("id")
-    ok = True
+    pal = ("ctor", L + "palette::Palette", ("array",) + tuple(("sym", f"entry{i}") for i in range(16)))
     why = []
-    for idx, ln, want in ((3, 16, "some"), (15, 16, "some"), (16, 16, "none"), (200, 16, "none")):
-        def val(e, idx=idx, ln=ln):
-            e = hir.peel(R2.res(hir.peel(e)))
-            if e.get("k") == "local" and e.get("id") == ipid:
-                return ("int", idx)
-            if hir.is_call(e, "len") and hir.place_str(e["args"][0]) == "self.0":
-                return ("int", ln)
-            if e.get("k") == "lit" and e.get("t") == "int":
-                return ("int", e["v"])
-            return None
-        R2 = hir.Resolver(b["hir"])
-        feas = [p for p in paths if hir.path_feasible(p, val)]
-        if len(feas) != 1:
-            ok = False
-            why.append(f"{len(feas)} paths for index {idx}")
-            continue
-        v = hir.simp(feas[0].value) if feas[0].value is not None else {}
-        if want == "some":
-            good = v.get("ctor", "").endswith("Option::Some") and hir.simp(v["args"][0]).get("k") == "index" and \
-                hir.place_str(hir.simp(v["args"][0])["e"]) == "self.0" and val(hir.simp(v["args"][0])["i"]) == ("int", idx)
-        else:
-            good = hir.is_def(v, "Option::None")
-        if not good:
-            ok = False
-            why.append(f"index {idx}, len {ln}: returns {hirpp.expr(v)[:40]}")
-    rep.check(ok, "tables", b["path"], "Some-iff-below-16", f"Some(self.0[index]) exactly when index < self.0.len(): {why[:2]}", loc(b))
+    for idx in range(256):
+        try:
+            r = abseval.Evaluator(facts, "anstyle_lossy", {}, inline_crates=("anstyle",)).call_fn("anstyle_lossy", b["path"], [pal, ("int", idx)])
+        except Unrecognised as ex:
+            r = ("not-evaluable", str(ex)[:80])
+        if r != (("some", ("sym", f"entry{idx}")) if idx < 16 else ("none",)):
+            why.append(f"index {idx}: {r}")
+        rep.count()
+    rep.check(not why, "tables", b["path"], "Some-iff-below-16", f"Some(self.0[index]) exactly when index < self.0.len(), evaluated for all 256 indices: {why[:2]}", loc(b))
     g = facts.body("anstyle_lossy", L + "palette::Palette::get")
     rep.fn(g["path"])
-    ok = bool(hir.calls_in(g["hir"], "anstyle::color::Ansi256Color::from_ansi")) and bool(hir.calls_in(g["hir"], L + "palette::Palette::get_ansi256_ref"))
-    r = facts.body("anstyle_lossy", L + "palette::Palette::get_ansi256_ref")
-    idx = [n for n in hir.walk(r["hir"]) if n.get("k") == "index"]
-    ok = ok and len(idx) == 1 and hir.place_str(idx[0]["e"]) == "self.0" and bool(hir.calls_in(r["hir"], "anstyle::color::Ansi256Color::index"))
-    rep.check(ok, "tables", g["path"], "entry-at-from_ansi-index", "", loc(g))
+    why = []
+    for i, name in enumerate(sgr.ANSI16):
+        try:
+            r = abseval.Evaluator(facts, "anstyle_lossy", {}, inline_crates=("anstyle",)).call_fn(
+                "anstyle_lossy", g["path"], [pal, ("enum", "anstyle::color::AnsiColor::" + name)])
+        except Unrecognised as ex:
+            r = ("not-evaluable", str(ex)[:80])
+        if r != ("sym", f"entry{i}"):
+            why.append(f"{name}: {r}")
+    rep.check(not why, "tables", g["path"], "entry-at-from_ansi-index", f"get(colour) is the palette entry at the colour's index, for each of the 16 colours {why[:2]}", loc(g))
     # XTERM_COLORS[16..] = formula
     it = facts.item("anstyle_lossy", L + "XTERM_COLORS", "Const")
     by = it.get("bytes")
